@@ -165,7 +165,7 @@ def task_params(p, tier, seed):
             part.record(Q("unsat" if ok else "sat", None, 0.0, ""), f"{key_base}: unknown parameter name '{bad}' refused after the estimator has been used (transform)")
             if not ok:
                 viol("unknown-name-after-use", f"set_params accepts the unknown parameter name '{bad}' once transform() has run")
-        for bad in ("max_dt", "innovation_filter", "process_noises", "Config", "sensor_noise", "configs", "model_"):
+        for bad in ("max_dt", "innovation_filter", "process_noises", "Config", "sensor_noise", "configs", "model_", "config__process_noise", "config__sensor_noises", "config__symbolic_model", "config__config"):
             ad3 = sym_adapter(p, env, pn, sn, k=None)
             try:
                 ad3.set_params(**{bad: 1.0})
